@@ -231,7 +231,9 @@ def extra_coverage(cases, couts, mouts):
     """how the model side disposed of the cases: checked / skipped (no exact reference available) / out of fuel"""
     d = {}
     for m in mouts:
-        k = "none" if m is None else ("checked" if m.startswith("CHECK") else m.split()[0].lower())
+        k = "none" if m is None else (("accepted by the VERIFIED checker" if m.startswith("CHECK ok verified") else
+                                       "accepted by the unverified reference only (outside the checker's scope)" if m.startswith("CHECK ok")
+                                       else "rejected") if m.startswith("CHECK") else m.split()[0].lower())
         d[k] = d.get(k, 0) + 1
     roots = {}
     for o in couts:
